@@ -117,8 +117,10 @@ func (r *Rec) around(kind string, args []cq.V, real func() error) error {
 	defer func() {
 		// a callee that panics did not succeed, whoever recovers further up
 		if x := recover(); x != nil {
-			r.Trace[idx].OK = false
-			r.Natural[idx] = true
+			if kind != "wrapped" { // (a panic of the wrapped ICS-20 application is outside the orbiter: OAppPanics)
+				r.Trace[idx].OK = false
+				r.Natural[idx] = true
+			}
 			panic(x)
 		}
 	}()
